@@ -467,8 +467,28 @@ class Normaliser:
     # ------------------------------------------------------------------ I2 / I3 / I4 / I6
     def _pre(self, stmts):
         out = []
+        stmts = self._merge_named_generator(stmts)
         for st in stmts:
             out.extend(self._pre_stmt(st))
+        return out
+
+    def _merge_named_generator(self, stmts):
+        """G = (e for t in it if c); x = next(G, d)   with G not used again in the block   ->   x = next((e for t in it if c), d)"""
+        out = list(stmts)
+        i = 0
+        while i + 1 < len(out):
+            a, b = out[i], out[i + 1]
+            if isinstance(a, ast.Assign) and len(a.targets) == 1 and isinstance(a.targets[0], ast.Name) and isinstance(a.value, ast.GeneratorExp) \
+                    and isinstance(b, ast.Assign) and isinstance(b.value, ast.Call) and isinstance(b.value.func, ast.Name) and b.value.func.id == "next" \
+                    and len(b.value.args) == 2 and not b.value.keywords and isinstance(b.value.args[0], ast.Name) and b.value.args[0].id == a.targets[0].id:
+                g = a.targets[0].id
+                later = [n for s_ in out[i + 2:] for n in ast.walk(s_) if isinstance(n, ast.Name) and n.id == g]
+                in_default = [n for n in ast.walk(b.value.args[1]) if isinstance(n, ast.Name) and n.id == g]
+                if not later and not in_default:
+                    b.value.args[0] = a.value
+                    del out[i]
+                    continue
+            i += 1
         return out
 
     def _pre_stmt(self, st):
@@ -1025,6 +1045,15 @@ class Normaliser:
                 if got is not None:
                     body, callee = got
                     return self._inline_generator(st, body, enum, start)
+                # a plain helper that returns the sequence: `for t in f(..)`  ->  seq = f(..) (expanded); for t in seq
+                tmp = fresh("seq")
+                pre = self._inline_stmt(set_pos(assign(tmp, it), st), local_defs, stack, depth)
+                if pre is not None:
+                    if it is st.iter:
+                        st.iter = set_pos(name(tmp), it)
+                    else:
+                        st.iter.args[0] = set_pos(name(tmp), it)
+                    return pre + [st]
             return None
         # ---- statement-level calls
         call, rebuild = None, None
